@@ -309,6 +309,16 @@ def r6(ctx, F, rule, sfx):
     ctx.check(rule, 'shift-of-same-plane' + sfx, got['shift'] == 'cell.clipping_planes[k].shift', got['shift'], 'cell.clipping_planes[k].shift', wh, key_extra='shift')
     ok = got['integral'].startswith('call:') and got['integral'].endswith('init_with_data(cell, k, data)')
     ctx.check(rule, 'integral-of-same-plane' + sfx, ok, got['integral'][-80:], 'I::init_with_data(cell, k, data)', wh, key_extra='integral')
+    # the stored face record (VoronoiFace::init wraps the integrator's record): read back through its own accessors
+    vf = F.body_by_suffix('voronoi_face::VoronoiFace::init')
+    ipv = I.Interp(F, no_inline=[b['path'] for b in F.bodies if b['path'].endswith('::init_with_data')])
+    rec, _ = ipv.call_body(vf, [ipv.ref_to(cell), RF.sym('k')])
+    ctx.evaluations += ipv.evaluations
+    for acc, want in (('left', 'cell.idx'), ('right', 'cell.clipping_planes[k].right_idx'), ('shift', 'cell.clipping_planes[k].shift')):
+        ab = F.body_by_suffix('voronoi_face::VoronoiFace::' + acc)
+        val, _ = ipv.call_body(ab, [ipv.ref_to(rec)])
+        g = repr(I.frozen(val))
+        ctx.check(rule, 'stored-face-%s%s' % (acc, sfx), g == want, g[:140], want, where(vf), key_extra='stored-' + acc)
     # every creation site passes the accumulation index K
     for which in ('direct', 'integrals', 'sym'):
         s = faces.site(F, which)
